@@ -63,7 +63,7 @@ def shortcut_class(m, i, j):
     def plain(p):
         return (p.geo[0] is p.geo[1] and p.segs[0].seg_len == p.segs[1].seg_len
                 and (p.segs[0].dirvec == p.segs[1].dirvec).all() and not p.ground.any())
-    return plain(pi) and plain(pj) and pi.geo[0] is pj.geo[0]
+    return plain(pi) and plain(pj) and pi.geo[0] is pj.geo[0] and pi.segs[0].seg_len == pj.segs[0].seg_len
 
 
 def source_pair(m, i, j):
